@@ -826,6 +826,32 @@ pub fn generate(workload: Workload, subject: SubjectKind, seed: u64) -> (Config,
                 ..Weights::default()
             };
             n_ops = r.range(10, 80) as usize;
+            if subject == SubjectKind::FO && r.chance(1, 3) {
+                // outputs pile up behind the stalled head while many small batches keep arriving
+                w.extend = 30;
+                w.push = 4;
+                n_ops = r.range(80, 400) as usize;
+            }
+            if subject == SubjectKind::FO && r.chance(1, 4) {
+                // ladder: strictly alternate "a small batch arrives" / "it completes and is parked
+                // behind the stalled head", so that every container that holds parked outputs is
+                // always exactly full when the next batch arrives
+                cfg.inexact_iter = false;
+                let k = r.range(1, 3) as usize;
+                let cycles = r.range(60, 300) as usize;
+                let ready = Beh { ready: true, ..Beh::default() };
+                trace.push(Op::Poll { fresh: false });
+                for _ in 0..cycles {
+                    trace.push(Op::Extend { behs: vec![ready; k] });
+                    trace.push(Op::Drive { max: 4 });
+                }
+                if r.chance(1, 2) {
+                    trace.push(Op::Ready { sel: 0, delay: false });
+                    trace.push(Op::Drive { max: (cycles * k + 8) as u16 });
+                }
+                trace.push(Op::Quiesce);
+                return (cfg, trace);
+            }
         }
         Workload::AfterReady => {
             m.p_ready = 50;
